@@ -4,6 +4,6 @@
 cd /verif
 out=${1:-/verif/benign/MATRIX.txt}
 : > $out
-ls -d ${BDIR:-benign}/C*/ | xargs -P 6 -I{} sh -c 'n=$(basename {}); bin/elyslint omatrix -v {}patch.diff > /tmp/benign_$n.out 2>&1'
+ls -d ${BDIR:-benign}/C*/ | xargs -P ${PAR:-6} -I{} sh -c 'n=$(basename {}); bin/elyslint omatrix -v {}patch.diff > /tmp/benign_$n.out 2>&1'
 for d in ${BDIR:-benign}/C*/; do n=$(basename $d); echo "== $n" >> $out; grep -v " 0 $" /tmp/benign_$n.out >> $out; rm -f /tmp/benign_$n.out; done
 grep -c "^C[0-9][0-9] [1-9]" $out | sed 's/^/alarms (change,property pairs): /'
